@@ -21,3 +21,18 @@ struct S *last(struct S *p) {
     if (p->next != 0) { p = p->next; goto again; }
     return p;
 }
+
+/* A-STACK: a callee may write anything but not a local whose address it was not given */
+extern void fill(long *p);
+long private_local(struct S *p) {
+    long keep = 5;
+    long *q = &keep;          /* (address taken, but never handed to a callee) */
+    unknown(p);
+    return *q;
+}
+long handed_local(struct S *p) {
+    long out = 6;
+    fill(&out);
+    unknown(p);
+    return out;
+}
